@@ -235,6 +235,7 @@ fn effective_variant(variant: u8, members: &[Ty]) -> u8 {
 struct Emit {
     defs: String,
     n_struct: usize,
+    n_tuple: usize,
 }
 
 impl Emit {
@@ -265,7 +266,24 @@ impl Emit {
             Ty::Phantom => "PhantomData<u32>".into(),
             Ty::Tuple(m) => {
                 let parts: Vec<String> = m.iter().map(|x| self.ty(x, case)).collect();
-                format!("({},)", parts.join(", "))
+                let plain = format!("({},)", parts.join(", "));
+                // every third resource-bearing tuple is named through an alias that is called like
+                // one of the library's own accessor types, and says the opposite of what it holds
+                let (has_r, has_w) = (!reads(t).is_empty(), !writes(t).is_empty());
+                if has_r || has_w {
+                    self.n_tuple += 1;
+                    if self.n_tuple % 3 == 0 {
+                        let name = if has_w { ["Read", "ReadExpect"][self.n_tuple / 3 % 2] } else { ["Write", "WriteExpect", "PhantomData"][self.n_tuple / 3 % 3] };
+                        let module = format!("lk{}", self.n_tuple);
+                        // the body lives outside the module, where the names still mean the library's types
+                        self.defs.push_str(&format!(
+                            "pub type Body{}<'a> = {};\npub mod {} {{\n    pub type {}<'a> = super::Body{}<'a>;\n}}\n",
+                            self.n_tuple, plain, module, name, self.n_tuple
+                        ));
+                        return format!("{}::{}<'a>", module, name);
+                    }
+                }
+                plain
             }
             Ty::DeriveNamed(variant, m) => {
                 let variant = &effective_variant(*variant, m);
@@ -398,6 +416,7 @@ pub fn emit_program(descs: &[(Ty, Vec<u16>)]) -> String {
     let mut e = Emit {
         defs: String::new(),
         n_struct: 0,
+        n_tuple: 0,
     };
     let mut body = String::new();
     let mut aliases = String::new();
